@@ -36,6 +36,10 @@ def equiv(a, b):
     return a.get('ok') == b.get('ok')
 
 
+def ref_i_of(all_combos):
+    return all_combos.index((False, False, False, False))
+
+
 def run(tier, seed, rng):
     combos = [(True, True, True, True), (False, False, False, False), (False, True, False, False), (True, False, True, True)] \
         if tier == 'quick' else list(itertools.product((True, False), repeat=4))
@@ -153,6 +157,43 @@ def run(tier, seed, rng):
                 f"class Plain{ci}(Packet):\n    __bisturi__ = {conf!r}\n    pad = Data(1)\n    inner = Ref(In{ci})\n    k = Int(2)\n"
                 f"class Rt{ci}(Packet):\n    __bisturi__ = {conf!r}\n    a = Int(1)\n"
                 f"    b = Data(lambda pkt, raw=b'', offset=0, **k: k['root'].a if 'root' in k else 99)\n")
+    dsrc = ("from bisturi.descriptor import Auto, AutoLength\n"
+            "class NoHook(object):\n    def __get__(self, inst, owner):\n        return self if inst is None else getattr(inst, self.real_field_name)\n"
+            "    def __set__(self, inst, v):\n        setattr(inst, self.real_field_name, v)\n"
+            "class AfterOnly(NoHook):\n    def sync_after_unpack(self, inst):\n        setattr(inst, self.real_field_name, getattr(inst, self.real_field_name) | 128)\n")
+    for ci, (gp, gu, vec, ann) in enumerate(all_combos):
+        conf = dict(generate_for_pack=gp, generate_for_unpack=gu, vectorize=vec, annotate=ann)
+        dsrc += (f"class Da{ci}(Packet):\n    __bisturi__ = {conf!r}\n    flag = Int(1).describe(NoHook())\n    length = Int(1).describe(AutoLength('a'))\n    a = Data(length)\n"
+                 f"class Db{ci}(Packet):\n    __bisturi__ = {conf!r}\n    length = Int(1).describe(AutoLength('a'))\n    mark = Int(1).describe(AfterOnly())\n    a = Data(length)\n"
+                 f"class Dc{ci}(Packet):\n    __bisturi__ = {conf!r}\n    k = Int(1).describe(AfterOnly())\n    flag = Int(1).describe(NoHook())\n    length = Int(1).describe(AutoLength('a'))\n    a = Data(length)\n    x = Int(1).describe(Auto(lambda pkt: len(pkt.a) * 2))\n")
+    dinputs = [bytes([1, 2, 65, 66, 7]), bytes([3, 1, 2, 65, 66, 9]), bytes([0, 0, 0, 0, 0, 0]), bytes([2, 3, 65]), b'']
+    dcases = [dict(cls=f"{k}{ci}", op='roundtrip', raw=raw.hex(), offset=0) for ci in range(len(all_combos)) for k in ('Da', 'Db', 'Dc') for raw in dinputs] + \
+             [dict(cls=f"{k}{ci}", op='pack', value={"py": f"{k}{ci}(a=b'xyz')"}) for ci in range(len(all_combos)) for k in ('Da', 'Db', 'Dc')]
+    dres = run_impl(os.path.join(VERIF, 'harness', 'impl_pkt.py'), dict(header=decl.HEADER_PY, blocks=[dict(name='desc', src=dsrc)], modname='c03d', cases=dcases))
+    nrt = len(dinputs) * 3
+    dist['descriptor_hook_cases'] = len(dcases)
+    import re as _re2
+    def strip(o):
+        # failures are compared as failures (the struct runs of generated code name a run of fields where the loop names one: C12)
+        if isinstance(o, dict) and 'err' in o:
+            o = {'err': o['err']}
+        if isinstance(o, dict) and isinstance(o.get('packed'), dict) and 'err' in o['packed']:
+            o = dict(o, packed={'err': o['packed']['err']})
+        return _re2.sub(r'(Da|Db|Dc)\d+', r'\1', json.dumps(o, sort_keys=True))
+    for ci in range(len(all_combos)):
+        for j in range(nrt):
+            a, b = dres['outcomes'][ref_i_of(all_combos) * nrt + j], dres['outcomes'][ci * nrt + j]
+            if strip(a) != strip(b):
+                failures.append(dict(kind='oracle', sig='descriptor-hooks', what='described fields (descriptors with and without hooks): generated and generic code behave differently',
+                                     options=dict(zip(('generate_for_pack', 'generate_for_unpack', 'vectorize', 'annotate'), all_combos[ci])),
+                                     case=dcases[ci * nrt + j], observed=b, required=a))
+        for j in range(3):
+            base = len(all_combos) * nrt
+            a, b = dres['outcomes'][base + ref_i_of(all_combos) * 3 + j], dres['outcomes'][base + ci * 3 + j]
+            if strip(a) != strip(b):
+                failures.append(dict(kind='oracle', sig='descriptor-hooks', what='described fields: pack() of a constructed packet differs between generated and generic code',
+                                     options=dict(zip(('generate_for_pack', 'generate_for_unpack', 'vectorize', 'annotate'), all_combos[ci])),
+                                     case=dcases[base + ci * 3 + j], observed=b, required=a))
     inputs = [bytes([5, 65, 66, 67, 68, 69, 70, 71, 72, 73, 74, 75]), bytes([3, 1, 2, 3, 4, 5, 6, 7, 8]), bytes([9, 9, 4, 80, 81, 82, 83, 84, 85, 86, 87, 88]),
               bytes([2, 7, 7, 7, 7, 7, 7]), bytes([1]), b'']
     zcases = [dict(cls=f"{k}{ci}", op='roundtrip', raw=raw.hex(), offset=off)
